@@ -83,7 +83,7 @@ def fresh_connection(I, **kw):
 
 THREAD_STATES = ('idle', 'active', 'ending', 'handover-active', 'handover-ending',
                  'handover-active-successor-interrupted', 'handover-ending-successor-interrupted')
-SOCK_STATES = ('never', 'refused-no-file', 'open', 'open-shutdown-fails', 'closed')
+SOCK_STATES = ('never', 'refused-no-file', 'open', 'open-shutdown-fails', 'open-peer-gone', 'closed')
 
 
 def put_in_state(conn, tstate, sstate, log):
@@ -101,9 +101,12 @@ def put_in_state(conn, tstate, sstate, log):
     elif sstate == 'refused-no-file':
         d['_outgoing_packet_queue'] = deque()
         d['socket'] = GSock(log, shutdown_raises=True)
-    elif sstate in ('open', 'open-shutdown-fails'):
+    elif sstate in ('open', 'open-shutdown-fails', 'open-peer-gone'):
         d['_outgoing_packet_queue'] = deque()
-        d['socket'] = GSock(log, shutdown_raises=sstate.endswith('fails'))
+        # 'open-peer-gone': the server failed / reset the connection and the networking thread has not noticed yet -
+        # every send on the socket raises, shutdown raises "not connected"
+        gone = sstate == 'open-peer-gone'
+        d['socket'] = GSock(log, shutdown_raises=sstate.endswith('fails') or gone, established=not gone)
         d['file_object'] = GFile(log)
         d['connected'] = True
     elif sstate == 'closed':
@@ -145,7 +148,9 @@ class Lifecycle(Unit):
                    kind='contract')
         I.override(raw(Connection, 'write_packet'), lambda I_, conn, p, force=False: unit.log.append('write_packet'),
                    kind='contract')
-        I.override(raw(Connection, '_pop_packet'), lambda I_, conn: unit.log.append('_pop_packet') and False, kind='contract')
+        # _pop_packet runs from its real body; the frame write itself is abstracted to "one send on the current socket"
+        I.override(raw(Connection, '_write_packet'), lambda I_, c, p: (unit.log.append('_write_packet'), c.socket.send(b'frame'))[0],
+                   kind='contract')
         real_check = raw(Connection, '_check_connection')
 
         def checked(I_, conn):
@@ -163,6 +168,8 @@ class Lifecycle(Unit):
         tstate = THREAD_STATES[E.fork(len(THREAD_STATES), 'thread-state')]
         sstate = SOCK_STATES[E.fork(len(SOCK_STATES), 'socket-state')]
         cur, new = put_in_state(conn, tstate, sstate, self.log)
+        if sstate.startswith('open') and E.fork(2, 'packets-queued'):
+            conn.__dict__['_outgoing_packet_queue'].extend(['queued-1', 'queued-2'])
         op = ('connect', 'status', 'disconnect', 'disconnect-immediate')[E.fork(4, 'operation')]
         self.connect_fails = bool(E.fork(2, 'tcp-refused')) if op in ('connect', 'status') else False
         before = dict(conn.__dict__)
@@ -217,7 +224,7 @@ class Lifecycle(Unit):
                 if new is not None and cur is not None:
                     E.check('disconnect.leaves-predecessor', cur.interrupt == ('handover-ending' in tstate or tstate == 'ending'))
                 if op == 'disconnect-immediate':
-                    E.check('disconnect.immediate-writes-nothing', '_pop_packet' not in self.log and 'sock.send' not in self.log)
+                    E.check('disconnect.immediate-writes-nothing', '_write_packet' not in self.log and 'sock.send' not in self.log)
                 if sstate.startswith('open'):
                     E.check('disconnect.closes', self.log.count('sock.close') == 1 and 'file.close' in self.log)
                 # idempotent
@@ -233,10 +240,13 @@ class Lifecycle(Unit):
         if label.startswith(('refusal', 'start')):
             rp = replay_typestates()
             return rp if rp['confirmed'] else replay_live()
-        return replay_lifecycle(label)
+        rp = replay_lifecycle(label)
+        return rp if rp['confirmed'] else replay_peer_gone()
 
     def bounded(self, rng, tier):
         live = replay_live()
+        if not live['confirmed']:
+            live = replay_peer_gone()
         if live['confirmed']:
             return dict(name='C16.live', evaluations=1, failures=[dict(call=live['call'], observed=live['observed'],
                                                                        witness='live-lifecycle')], bound='one live scenario')
@@ -370,6 +380,75 @@ def replay_live():
                 pass
         srv.close()
     return dict(confirmed=bad is not None, call='live loopback scenario: connect, connect/status while active, disconnect, reconnect',
+                observed=bad or 'conforms')
+
+
+def replay_peer_gone():
+    """Live, public API only: the server sends one login packet and then resets the connection; a listener for that
+    packet (running on the networking thread, as the property allows) queues two packets and calls disconnect()."""
+    import socket, struct, time
+    from minecraft.networking.packets import clientbound, serverbound
+    srv = socket.socket()
+    srv.bind(('127.0.0.1', 0))
+    srv.listen(1)
+    port = srv.getsockname()[1]
+    seen = {}
+
+    def server():
+        try:
+            peer = srv.accept()[0]
+            peer.settimeout(2.0)
+            try:
+                peer.recv(4096)                                   # handshake + login start
+            except OSError:
+                pass
+            peer.sendall(bytes([3, 0x03, 0x80, 0x02]))            # login: set compression, threshold 256
+            time.sleep(0.05)
+            peer.setsockopt(socket.SOL_SOCKET, socket.SO_LINGER, struct.pack('ii', 1, 0))
+            peer.close()                                          # the server fails: connection reset
+        except OSError as e:
+            seen['server'] = e
+    th = threading.Thread(target=server, daemon=True)
+    th.start()
+    c = Connection('127.0.0.1', port, username='u', allowed_versions={757}, handle_exception=lambda e, i: None)
+    done = threading.Event()
+
+    def listener(packet):
+        time.sleep(0.3)                                           # by now the reset has arrived
+        for k in range(2):
+            p = serverbound.play.ChatPacket()
+            p.message = 'late %d' % k
+            c.write_packet(p)
+        try:
+            c.disconnect()
+            seen['disconnect'] = None
+        except Exception as e:
+            seen['disconnect'] = e
+        seen['socket-released'] = c.socket is None
+        done.set()
+    c.register_packet_listener(listener, clientbound.login.SetCompressionPacket, early=True)
+    bad = None
+    try:
+        c.connect()
+        if not done.wait(5.0):
+            return dict(confirmed=False, call='peer-gone scenario', observed='listener was not reached (scenario did not run)')
+        if seen.get('disconnect') is not None:
+            bad = 'disconnect() raised %r; socket released: %r' % (seen['disconnect'], seen['socket-released'])
+        t = c.networking_thread
+        if t is not None:
+            t.join(3.0)
+            if t.is_alive():
+                bad = bad or 'networking thread still alive 3 s after disconnect()'
+    except Exception as e:
+        bad = 'scenario raised %r' % (e,)
+    finally:
+        try:
+            c.disconnect(immediate=True)
+        except Exception:
+            pass
+        srv.close()
+    return dict(confirmed=bad is not None,
+                call='server sends one packet and resets the connection; a listener queues two packets and calls disconnect()',
                 observed=bad or 'conforms')
 
 
